@@ -190,7 +190,7 @@ fn err_event(api: &str, p: usize, limit: usize, e: &Error) -> Value {
 fn offer_sequence(t: &mut Tracer, g: &GenHead, ps: &[usize], api: &str) {
     let exp = expected_map(&g.fields);
     if api == "flow" {
-        let mut f = flow_recv_response("GET");
+        let mut f = flow_recv_response(["GET", "POST", "PUT", "OPTIONS", "DELETE"][(g.h + g.fields.len()) % 5]);
         for &p in ps {
             let input = &g.bytes[..p.min(g.bytes.len())];
             match guarded(|| f.try_response(input)) {
@@ -211,7 +211,7 @@ fn offer_sequence(t: &mut Tracer, g: &GenHead, ps: &[usize], api: &str) {
             }
         }
     } else {
-        let mut c0 = call_recv_response("GET");
+        let mut c0 = call_recv_response(["GET", "POST", "PATCH", "TRACE"][(g.h + g.fields.len()) % 4]);
         for &p in ps {
             let input = &g.bytes[..p.min(g.bytes.len())];
             match guarded(|| c0.try_response(input)) {
@@ -237,7 +237,7 @@ fn offer_sequence(t: &mut Tracer, g: &GenHead, ps: &[usize], api: &str) {
 fn offer_flow(t: &mut Tracer, g: &GenHead, p: usize, api: &str) {
     let input = &g.bytes[..p];
     if api == "flow" {
-        let mut f = flow_recv_response("GET");
+        let mut f = flow_recv_response(["GET", "POST", "PUT", "OPTIONS", "DELETE"][(g.h + g.fields.len()) % 5]);
         match guarded(|| f.try_response(input)) {
             None => t.ev(json!({"ev":"panic","during":"try_response"})),
             Some(Err(e)) => t.ev(err_event(api, p, 128, &e)),
@@ -248,7 +248,7 @@ fn offer_flow(t: &mut Tracer, g: &GenHead, p: usize, api: &str) {
             }
         }
     } else {
-        let mut c0 = call_recv_response("GET");
+        let mut c0 = call_recv_response(["GET", "POST", "PATCH", "TRACE"][(g.h + g.fields.len()) % 4]);
         match guarded(|| c0.try_response(input)) {
             None => t.ev(json!({"ev":"panic","during":"Call::try_response"})),
             Some(Err(e)) => t.ev(err_event(api, p, 128, &e)),
